@@ -410,35 +410,27 @@ def r10(R):
                     op.path, ('self', 'base', 'lastTransaction')):
                 st = 'consulted'
         if node.kind == 'test' and lab in ('T', 'F') and st == 'start':
-            # the caller supplied positional / keyword arguments (an id)
-            # value of the test when the caller supplied nothing: a branch
-            # that contradicts it is taken only with an id supplied
-            v = nothing_supplied(node.ast)
-            if v is not None and (lab == 'T') != v:
-                return 'caller-id'
+            # the caller supplied an id: established only by a test that
+            # the id taken from the arguments is not None (an argument that
+            # is passed may still be None -- tpc_begin(txn, None) -- and
+            # then the id is the storage's to choose)
+            for e, truth in implied_atoms(node.ast, lab):
+                if isinstance(e, ast.Compare) and len(e.ops) == 1 and \
+                        isinstance(e.ops[0], (ast.Is, ast.IsNot)) and \
+                        isinstance(e.comparators[0], ast.Constant) and \
+                        e.comparators[0].value is None:
+                    pv = provenance(e.left, node.frame, F)
+                    names = {x.id for x in ast.walk(e.left)
+                             if isinstance(x, ast.Name)}
+                    from_args = bool(names & varargs) or any(
+                        (k_ == 'param' and v_ in varargs) or (
+                            k_ in ('call', 'path') and
+                            str(v_[0]).lstrip('@') in varargs)
+                        for k_, v_ in pv)
+                    if from_args and isinstance(e.ops[0],
+                                                ast.IsNot) == truth:
+                        return 'caller-id'
         return st
-
-    def nothing_supplied(e):
-        if isinstance(e, ast.Name) and e.id in varargs:
-            return False
-        if isinstance(e, ast.UnaryOp) and isinstance(e.op, ast.Not):
-            v = nothing_supplied(e.operand)
-            return None if v is None else not v
-        if isinstance(e, ast.Compare) and len(e.ops) == 1 and isinstance(
-                e.ops[0], (ast.In, ast.NotIn)) and isinstance(
-                    e.comparators[0], ast.Name) and \
-                e.comparators[0].id in varargs:
-            return isinstance(e.ops[0], ast.NotIn)
-        if isinstance(e, ast.BoolOp):
-            vs = [nothing_supplied(x) for x in e.values]
-            if isinstance(e.op, ast.And):
-                if any(x is False for x in vs):
-                    return False
-                return True if all(x is True for x in vs) else None
-            if any(x is True for x in vs):
-                return True
-            return False if all(x is False for x in vs) else None
-        return None
 
     def at(node, st):
         for op in F.ops(node):
@@ -458,5 +450,79 @@ def r10(R):
     vs, stats = explore(g, 'start', at=at, edge=edge)
     R.count(stats)
     R.require(seen[0] or vs, 'DemoStorage.tpc_begin no longer delegates')
+    for v in vs:
+        R.violation(v.node, v.message, g, v.path)
+
+
+# ----------------------------------------------------------------- C16.R11
+@rule('C16.R11', 'the storages a demo storage layers agree with it on how '
+      'loadBefore says "no revision before the bound": None when the object '
+      'has records (only later ones), POSKeyError only when it has none -- '
+      'the demo storage joins the intervals of the two layers on exactly '
+      'that distinction', props=['C04', 'C15'], min_instances=2)
+def r11(R):
+    # the consumer really makes the distinction
+    ds = R.prog.cls(DS)
+    f = R.method(ds, 'loadBefore')
+    catches = any(isinstance(h, ast.ExceptHandler) and h.type is not None and
+                  'POSKeyError' in ast.unparse(h.type)
+                  for h in ast.walk(f.node))
+    tests_none = any(isinstance(c, ast.Compare) and len(c.ops) == 1 and
+                     isinstance(c.ops[0], (ast.Is, ast.IsNot)) and
+                     isinstance(c.comparators[0], ast.Constant) and
+                     c.comparators[0].value is None
+                     for c in ast.walk(f.node)) or any(
+        isinstance(t, ast.If) and isinstance(t.test, (ast.Name, ast.UnaryOp))
+        for t in ast.walk(f.node))
+    R.instance('DemoStorage.loadBefore distinguishes',
+               catches_poskeyerror=catches, tests_none=tests_none)
+    if not (catches and tests_none):
+        R.observe('DemoStorage.loadBefore no longer distinguishes None from '
+                  'POSKeyError; nothing to agree on')
+        return
+    # the producer: MappingStorage (the default changes layer)
+    ms = R.prog.cls(MS)
+    f = R.method(ms, 'loadBefore')
+    g, b, F = R.cfg(f, ms, max_depth=0)
+    oid = [p for p in f.params if p != 'self'][0]
+    # locals holding the object's records: X = self._data.get(oid) / [oid]
+    recs = set()
+    for s in walk_local(f.node):
+        if isinstance(s, ast.Assign) and isinstance(s.targets[0], ast.Name):
+            pv = ast.unparse(s.value)
+            if 'self._data' in pv and oid in pv:
+                recs.add(s.targets[0].id)
+    R.require(recs, 'MappingStorage.loadBefore no longer looks the object up '
+              'in self._data')
+    R.instance('MappingStorage.loadBefore', records_in=sorted(recs))
+
+    def edge(node, st, lab, tgt):
+        if node.kind == 'test' and lab in ('T', 'F'):
+            for e, truth in implied_atoms(node.ast, lab):
+                if isinstance(e, ast.Name) and e.id in recs:
+                    return 'has-records' if truth else 'none'
+                if isinstance(e, ast.Compare) and len(e.ops) == 1 and \
+                        isinstance(e.left, ast.Name) and e.left.id in recs \
+                        and isinstance(e.comparators[0], ast.Constant) and \
+                        e.comparators[0].value is None:
+                    isnone = isinstance(e.ops[0], ast.Is) == truth
+                    return 'none' if isnone else 'has-records'
+        return st
+
+    def at(node, st):
+        if node.kind == 'raise' and node.frame.parent is None and \
+                st == 'has-records' and 'POSKeyError' in ast.unparse(
+                    node.ast):
+            return Violation(
+                'MappingStorage.loadBefore raises POSKeyError for an object '
+                'that has records (none of them before the bound): '
+                'DemoStorage.loadBefore takes POSKeyError for "not in the '
+                'changes at all" and answers with the base revision '
+                'open-ended, although the changes hold later revisions -- '
+                'the validity intervals of the two layers no longer join')
+        return st
+
+    vs, stats = explore(g, 'unknown', at=at, edge=edge)
+    R.count(stats)
     for v in vs:
         R.violation(v.node, v.message, g, v.path)
